@@ -1,5 +1,6 @@
 #!/bin/bash
 # usage: tools/confirm_seeded.sh <worktree> <patch> <demo.rs>
+# (FEATURES='--features serde' for demos that need an optional feature)
 # Confirms in the scratch worktree: patch applies, existing tests pass with it, demo fails with it and passes without.
 set -u
 W=$1; P=$2; D=$3
@@ -8,7 +9,7 @@ git checkout -q -- . ; rm -f tests/zz_demo.rs
 git apply "$P" || { echo "CONFIRM: patch does not apply"; exit 3; }
 echo -n "existing tests with change: "; cargo test --workspace --no-fail-fast --offline 2>&1 | grep "test result" | awk '{p+=$4; f+=$6} END {print p" passed, "f" failed"}'
 cp "$D" tests/zz_demo.rs
-echo -n "demo with change: "; cargo test --offline --test zz_demo 2>&1 | grep "test result" | head -1
+echo -n "demo with change: "; cargo test --offline ${FEATURES:-} --test zz_demo 2>&1 | grep "test result" | head -1
 git checkout -q -- .
-echo -n "demo without change: "; cargo test --offline --test zz_demo 2>&1 | grep "test result" | head -1
+echo -n "demo without change: "; cargo test --offline ${FEATURES:-} --test zz_demo 2>&1 | grep "test result" | head -1
 rm -f tests/zz_demo.rs
